@@ -2552,7 +2552,20 @@ func NewExtendedCommunitiesAttributeFromNative(a *bgp.PathAttributeExtendedCommu
 				},
 			}
 		default:
-			return nil, fmt.Errorf("unsupported extended community: %v", value)
+			// No dedicated API message (e.g. the EVPN Layer 2 Attributes
+			// community): carry the 8 octets as an unknown community, which
+			// converts back to the same octets, instead of failing the
+			// conversion of the whole attribute list.
+			b, err := value.Serialize()
+			if err != nil || len(b) != 8 {
+				return nil, fmt.Errorf("unsupported extended community: %v", value)
+			}
+			community.Extcom = &api.ExtendedCommunity_Unknown{
+				Unknown: &api.UnknownExtended{
+					Type:  uint32(b[0]),
+					Value: b[1:],
+				},
+			}
 		}
 		communities = append(communities, &community)
 	}
